@@ -40,7 +40,9 @@ SHAPES = {
     "item": 'd["k"]',
     "mixed": 'a.d["k"]',
     "item2": "d[\"k\"]['j']",
+    "item_esc": 'd["say \\"hi\\" \\\\ it\'s"]',  # a key with escaped quotes and an escaped backslash
 }
+ESC_KEY = 'say "hi" \\ it\'s'  # what that path step denotes
 FALLBACK = [1, 2]
 
 
@@ -113,6 +115,8 @@ def t_get(h, shape):
         return h.a.b
     if shape == "item":
         return h.d["k"]
+    if shape == "item_esc":
+        return h.d[ESC_KEY]
     if shape == "mixed":
         return h.a.d["k"]
     return h.d["k"]["j"]
@@ -125,6 +129,8 @@ def t_set(h, shape, v):
         h.a.b = v
     elif shape == "item":
         h.d["k"] = v
+    elif shape == "item_esc":
+        h.d[ESC_KEY] = v
     elif shape == "mixed":
         h.a.d["k"] = v
     else:
@@ -138,6 +144,8 @@ def t_del(h, shape):
         del h.a.b
     elif shape == "item":
         del h.d["k"]
+    elif shape == "item_esc":
+        del h.d[ESC_KEY]
     elif shape == "mixed":
         del h.a.d["k"]
     else:
@@ -240,6 +248,8 @@ def do_real(h, op, shape):
                 new = h.with_a(a2)
             elif shape == "item":
                 new = h.with_d_item("k", 30)
+            elif shape == "item_esc":
+                new = h.with_d_item(ESC_KEY, 30)
             else:
                 new = h.transform_d_item("k", lambda inner: dict(inner, j=30))
             r = None
